@@ -642,6 +642,8 @@ def rule_r17(text, rules):
 
 def rule_r22(text, rules):
     """RECV.iter().map(|X| E).collect()  ->  { let mut __cK = Vec::new(); for X in RECV.iter() { __cK.push(E); } __cK }
+       (X one identifier or a tuple pattern of identifiers; E an expression or a block `{ S; E' }`, evaluated once per item, in order, as the
+       closure is; `RECV.into_iter().map(..)` likewise with `for X in RECV`)
        RECV.iter().map(PATH).collect()   ->  { let mut __cK = Vec::new(); for __mK in RECV.iter() { __cK.push(PATH(__mK)); } __cK }
     (also with the turbofish `collect::<Vec<_>>()`; Verus has no specification for the Map adapter / collect.)  RECV is a path of
     identifiers and field accesses, X one identifier, PATH a path of identifiers; refused if E contains `return` or `?` (they would leave
@@ -653,7 +655,8 @@ def rule_r22(text, rules):
         hit = None
         for i in range(len(st) - 10):
             tx = [y.text for y in st[i:i + 7]]
-            if tx != [".", "iter", "(", ")", ".", "map", "("]: continue
+            if tx != [".", "iter", "(", ")", ".", "map", "("] and tx != [".", "into_iter", "(", ")", ".", "map", "("]: continue
+            itname = st[i + 1].text
             mo = i + 6; mc = match_close(st, mo)
             # collect() or collect::<Vec<_>>()
             after = "".join(y.text for y in st[mc + 1:mc + 12])
@@ -674,28 +677,67 @@ def rule_r22(text, rules):
                 else: break
             if r - 1 >= 0 and st[r - 1].text in (".", "::", ")", "]", "?"): continue    # part of a longer postfix expression: leave it
             inner = st[mo + 1:mc]
-            if len(inner) >= 3 and inner[0].text == "|" and inner[1].kind == "ident" and inner[2].text == "|":
-                body = inner[3:]
+            pe = None
+            if len(inner) >= 3 and inner[0].text == "|":
+                # the closure parameter: one identifier, or a tuple pattern of identifiers `(a, b)`
+                if inner[1].kind == "ident" and inner[2].text == "|": pe = 2
+                elif inner[1].text == "(":
+                    q = 2
+                    while q < len(inner) and (inner[q].kind == "ident" or inner[q].text == ","): q += 1
+                    if q + 1 < len(inner) and inner[q].text == ")" and inner[q + 1].text == "|": pe = q + 1
+            if pe is not None:
+                body = inner[pe + 1:]
                 if any((y.kind == "ident" and y.text == "return") or (y.kind == "punct" and y.text == "?") for y in body):
                     raise ExtractError("unsupported: `return` / `?` inside a map(..).collect() closure")
-                var = inner[1].text
-                E = text[inner[3].start:inner[-1].end]
+                var = text[inner[1].start:inner[pe - 1].end]
+                E = text[inner[pe + 1].start:inner[-1].end]
             elif inner and all((y.kind == "ident") or (y.kind == "punct" and y.text == "::") for y in inner):
                 var = None
                 E = text[inner[0].start:inner[-1].end]
             else:
                 continue
-            hit = (r, i, mc, n_after, var, E); break
+            hit = (r, i, mc, n_after, var, E, itname); break
         if hit is None: return text
-        r, i, mc, n_after, var, E = hit
+        r, i, mc, n_after, var, E, itname = hit
         k += 1
         recv = text[st[r].start:st[i - 1].end]
         if var is None:
             var = "__m%d" % k
             E = "%s(%s)" % (E, var)
-        new = "{ let mut __c%d = Vec::new(); for %s in %s.iter() { __c%d.push(%s); } __c%d }" % (k, var, recv, k, E, k)
+        src = (recv + ".iter()") if itname == "iter" else recv       # `for X in RECV` IS `for X in IntoIterator::into_iter(RECV)`
+        new = "{ let mut __c%d = Vec::new(); for %s in %s { __c%d.push(%s); } __c%d }" % (k, var, src, k, E, k)
         text = text[:st[r].start] + new + text[st[mc + n_after].end:]
         rules.append("R22")
+
+def rule_r31(text, rules):
+    """RECV.iter().any(|X| E)  ->  { let mut __aK = false; for X in RECV.iter() { if !__aK && E { __aK = true; } } __aK }
+    (Iterator::any stops at the first item for which E holds; E - which must not have side effects: it contains no call with `&mut`,
+    no assignment - is not evaluated for later items here either, because of the short-circuit `!__aK &&`; the loop merely runs on.)
+    RECV a path of identifiers, X one identifier."""
+    k = 0
+    while True:
+        toks, st = _sig_with_index(text)
+        hit = None
+        for i in range(len(st) - 10):
+            if [y.text for y in st[i:i + 8]][:7] != [".", "iter", "(", ")", ".", "any", "("]: continue
+            mo = i + 6; mc = match_close(st, mo)
+            inner = st[mo + 1:mc]
+            if not (len(inner) >= 4 and inner[0].text == "|" and inner[1].kind == "ident" and inner[2].text == "|"): continue
+            r = i - 1
+            if not (st[r].kind == "ident"): continue
+            while r - 2 >= 0 and st[r - 1].text == "." and st[r - 2].kind == "ident": r -= 2
+            if r - 1 >= 0 and st[r - 1].text in (".", "::", ")", "]", "?"): continue
+            body = inner[3:]
+            if any((y.kind == "ident" and y.text in ("return", "mut")) or (y.kind == "punct" and y.text in ("?", "=", "+=", "-=")) for y in body):
+                raise ExtractError("unsupported: side effect / `return` / `?` inside an any(..) closure")
+            hit = (r, i, mc, inner[1].text, text[inner[3].start:inner[-1].end]); break
+        if hit is None: return text
+        r, i, mc, var, E = hit
+        k += 1
+        recv = text[st[r].start:st[i - 1].end]
+        new = "{ let mut __a%d = false; for %s in %s.iter() { if !__a%d && (%s) { __a%d = true; } } __a%d }" % (k, var, recv, k, E, k, k)
+        text = text[:st[r].start] + new + text[st[mc].end:]
+        rules.append("R31")
 
 def rule_r24(text, rules):
     """RECV.into_iter().map(|X| E).collect::<Result<_, _>>()?  ->  { let mut __rK = Vec::new(); for X in RECV { __rK.push((E)?); } __rK }
@@ -1432,6 +1474,7 @@ def extract_item(path, selector, opts, directives, findings_open):
         text = rule_r4(text, rules)
         text = rule_r17(text, rules)
         text = rule_r22(text, rules)
+        text = rule_r31(text, rules)
         text = rule_r24(text, rules)
         text = rule_r25(text, rules)
         text = rule_r27(text, rules)
